@@ -6,7 +6,7 @@ from harness import common
 ID = "C14"
 BOUNDS = {
     "quick": "DilutionPlan(xmin, xmax, R, C, stock, mode='linear', vmax, min_transfer) with xmin, xmax, min_transfer symbolic reals (0 < xmin < xmax <= stock, "
-             "1 <= min_transfer <= vmax), (R, C) in {(1,2), (1,3), (1,4), (2,2)}, vmax in {6, (6,8,..) per column}, stock in {1, 2.5}; the integer results of round/ceil "
+             "1 <= min_transfer <= vmax), (R, C) in {(1,2), (1,3), (1,4), (2,2)}, vmax in {6, (6,8,..) per column, (8,2,8,..) with a small middle column}, stock in {1, 2.5}; the integer results of round/ceil "
              "are concretised (0..vmax+2), so every path is one concrete plan and the solver decides the region of (xmin, xmax, min_transfer) that yields it; "
              "each plan is then executed with to_worklist on both devices on large labware; mode='log' and invalid modes as concrete cases",
     "thorough": "(R, C) up to (2,3) and (1,5), vmax in {6, 10}, worklist max_volume below vmax (splitting), destination plate, mixing parameters",
@@ -20,7 +20,7 @@ def shards(tier):
     out = []
     rcs = [(1, 2), (1, 3), (2, 2), (1, 4)] + ([(2, 3), (1, 5)] if tier == "thorough" else [])
     for R, C in rcs:
-        for vmax in ([6.0, "percol"] if tier == "quick" else [6.0, 10.0, "percol"]):
+        for vmax in ([6.0, "percol"] + (["dip"] if C >= 3 else []) if tier == "quick" else [6.0, 10.0, "percol", "dip"]):
             for stock in (1.0, 2.5):
                 out.append(dict(part="plan", R=R, C=C, vmax=vmax, stock=stock))
     out.append(dict(part="concrete", concrete=True))
@@ -87,6 +87,8 @@ def setup():
 
 
 def vmax_arg(p):
+    if p["vmax"] == "dip":   # a small column between larger ones
+        return [8.0, 2.0, 8.0, 6.0, 8.0][: p["C"]] if p["C"] >= 3 else [8.0, 2.0][: p["C"]]
     if p["vmax"] == "percol":
         return [6.0 + 2 * c for c in range(p["C"])]
     return p["vmax"]
